@@ -6,7 +6,6 @@ package sctp
 // /verif/spec. Nothing here decides a property: this file records, the specification judges.
 
 import (
-	"sync/atomic"
 	"bufio"
 	"context"
 	"crypto/sha256"
@@ -21,6 +20,7 @@ import (
 	"sort"
 	"strings"
 	"sync"
+	"sync/atomic"
 	"testing/synctest"
 	"time"
 
@@ -151,22 +151,22 @@ func (t *vfTrace) close() {
 // ---------------------------------------------------------------- configuration
 
 type vfEpCfg struct {
-	SlowLog *vfSlowLogger // real-time families only
-	InitTSN    uint32  `json:"init_tsn"`
-	Tag        uint32  `json:"tag"`
-	IL         bool    `json:"il"`
-	ZC         bool    `json:"zc"`
-	MTU        uint32  `json:"mtu"`
-	Buf        uint32  `json:"buf"`
-	MaxMsg     uint32  `json:"maxmsg"`
-	RTOMax     float64 `json:"rtomax"`
-	BlockWrite bool    `json:"blockwrite"`
-	MinCwnd    uint32  `json:"mincwnd"`
-	FastRtxWnd uint32  `json:"fastrtxwnd"`
-	CwndCAStep uint32  `json:"cwndcastep"`
-	Sched      string  `json:"sched"` // "", "wfq", "rr"
-	MaxReasm   uint32  `json:"maxreasm"`
-	Server     bool    `json:"server"` // role: server (waits for INIT) instead of client
+	SlowLog    *vfSlowLogger // real-time families only
+	InitTSN    uint32        `json:"init_tsn"`
+	Tag        uint32        `json:"tag"`
+	IL         bool          `json:"il"`
+	ZC         bool          `json:"zc"`
+	MTU        uint32        `json:"mtu"`
+	Buf        uint32        `json:"buf"`
+	MaxMsg     uint32        `json:"maxmsg"`
+	RTOMax     float64       `json:"rtomax"`
+	BlockWrite bool          `json:"blockwrite"`
+	MinCwnd    uint32        `json:"mincwnd"`
+	FastRtxWnd uint32        `json:"fastrtxwnd"`
+	CwndCAStep uint32        `json:"cwndcastep"`
+	Sched      string        `json:"sched"` // "", "wfq", "rr"
+	MaxReasm   uint32        `json:"maxreasm"`
+	Server     bool          `json:"server"` // role: server (waits for INIT) instead of client
 	// token starts only: the association is created with the OPPOSITE interleaving / zero-checksum option from the one
 	// its (already exchanged) token announces. The peer negotiates from the token alone, so the token must win.
 	// the Zero Checksum Acceptable parameter this endpoint sends is rewritten in transit to name another error
@@ -174,8 +174,8 @@ type vfEpCfg struct {
 	ZCForeign bool `json:"zcforeign"`
 	// this endpoint's Supported Extensions parameter reaches the peer without I-FORWARD-TSN (rewritten in transit)
 	NoIFwdAnnounced bool `json:"noifwd"`
-	OptFlipIL bool `json:"optflipil"`
-	OptFlipZC bool `json:"optflipzc"`
+	OptFlipIL       bool `json:"optflipil"`
+	OptFlipZC       bool `json:"optflipzc"`
 }
 
 func (c vfEpCfg) norm() vfEpCfg {
@@ -336,30 +336,31 @@ type vfEndpoint struct {
 }
 
 type vfWorld struct {
-	tr       *vfTrace
-	t0       time.Time
-	ep       [2]*vfEndpoint
-	mu       sync.Mutex
-	pend     []*vfPkt // packets written and not yet consumed by the driver
-	nextPid  int
-	activity chan struct{}
-	msgs     map[int]*vfMsg
-	byHash   map[[32]byte]int         // full message content (+ppi-less) -> id
-	frags    map[[32]byte][]vfFragRef // fragment content -> candidates
-	nextMsg  int
-	rng      *rand.Rand
-	snapAll  bool
-	noSnap   bool
-	tsnRef   map[[2]uint32]vfFragRef // (sender, absolute TSN) -> fragment it carries
-	refUsed  map[[3]int]bool
-	tokens   bool      // the scenario starts from exchanged tokens (set before cfgEvent)
-	snapTok  [2][]byte // out-of-band tokens (SNAP start): when set, start() passes WithSNAP(local, remote)
-	rt       bool // real time, outside any synctest bubble (multi-writer family only)
-	stopped  bool
-	nWire    int
-	firstPid map[[2]int]int
-	seqBase  map[[2]int]vfSeqBase // (sender ep, sid) -> preset counters
-	label    string
+	tr        *vfTrace
+	t0        time.Time
+	ep        [2]*vfEndpoint
+	mu        sync.Mutex
+	pend      []*vfPkt // packets written and not yet consumed by the driver
+	nextPid   int
+	activity  chan struct{}
+	noQuiesce bool // write() returns without waiting for quiescence (the caller goes straight on to another call)
+	msgs      map[int]*vfMsg
+	byHash    map[[32]byte]int         // full message content (+ppi-less) -> id
+	frags     map[[32]byte][]vfFragRef // fragment content -> candidates
+	nextMsg   int
+	rng       *rand.Rand
+	snapAll   bool
+	noSnap    bool
+	tsnRef    map[[2]uint32]vfFragRef // (sender, absolute TSN) -> fragment it carries
+	refUsed   map[[3]int]bool
+	tokens    bool      // the scenario starts from exchanged tokens (set before cfgEvent)
+	snapTok   [2][]byte // out-of-band tokens (SNAP start): when set, start() passes WithSNAP(local, remote)
+	rt        bool      // real time, outside any synctest bubble (multi-writer family only)
+	stopped   bool
+	nWire     int
+	firstPid  map[[2]int]int
+	seqBase   map[[2]int]vfSeqBase // (sender ep, sid) -> preset counters
+	label     string
 }
 
 func (w *vfWorld) now() int { return int(time.Since(w.t0) / time.Millisecond) }
@@ -944,7 +945,9 @@ func (w *vfWorld) write(ep, sid, n int, ppi uint32) (*vfMsg, error) {
 	nw, err := s.WriteSCTP(m.Payload, PayloadProtocolIdentifier(ppi))
 	w.tr.emit(map[string]any{"ev": "write", "ep": ep, "sid": sid, "id": m.ID, "len": n, "ppi": int(ppi), "ok": err == nil,
 		"n": nw, "err": vfErrClass(err), "unord": unord && ppi != uint32(PayloadTypeWebRTCDCEP), "rtype": int(rt), "rval": int(rv), "t": w.now()})
-	w.quiesce()
+	if !w.noQuiesce {
+		w.quiesce()
+	}
 	return m, err
 }
 
